@@ -35,10 +35,10 @@ USER = {'Name': 'Foo', 'UserID': 1, 'UserRef': '1', 'LinkKey': {}, 'Origin': Non
 
 
 def strategy(tier):
-  call = st.fixed_dictionaries({'fn': st.integers(0, len(FNS) - 1), 'a': st.integers(0, 7), 'b': st.integers(0, 7),
+  call = st.fixed_dictionaries({'fn': st.sampled_from([0, 1, 2, 2, 2, 3, 3, 3, 4, 5, 6]), 'a': st.integers(0, 7), 'b': st.integers(0, 7),
                                 'c': st.integers(0, 9), 'flag': st.booleans(), 'txt': st.integers(0, len(TXTS) - 1),
                                 'vals': st.lists(O.valspec(), max_size=3)})
-  return st.fixed_dictionaries({'h': O.history('formula', 0, 8), 'side': st.booleans(), 'summary': st.booleans(),
+  return st.fixed_dictionaries({'h': O.history('formula', 0, 8), 'side': st.sampled_from([True, True, False]), 'summary': st.sampled_from([True, True, False]),
                                 'calls': st.lists(call, min_size=1, max_size=6)})
 
 
